@@ -282,6 +282,13 @@ theorem del_covers_every_key (c : Cfg) (s : St) (ks : List CKey) (m : List (List
     (delOp c s ks m).1.cache (c.slot k) = none ∨ Pending (delOp c s ks m).1 (c.slot k) :=
   delOp_covers c s ks m hk
 
+/-- … in whatever order the groups are processed (Go ranges over the `nodes` map in random order): for every
+list `ns` of nodes that contains the key's node. -/
+theorem del_covers_every_key_any_order (c : Cfg) (s : St) (ks : List CKey) (m : List (List Bool)) (ns : List Nat)
+    (k : CKey) (hk : k ∈ ks) (hn : c.place k ∈ ns) :
+    (clusterDel c ks m ns s).1.cache (c.slot k) = none ∨ Pending (clusterDel c ks m ns s).1 (c.slot k) :=
+  clusterDel_covers c ks m hk ns hn s
+
 /-- the same for `ExecCtx` whose database write succeeded. -/
 theorem exec_covers_every_key (c : Cfg) (s : St) (ks : List CKey) (w : Write) (m : List (List Bool)) (k : CKey)
     (hk : k ∈ ks) :
